@@ -20,6 +20,7 @@ import (
 	"errors"
 	"fmt"
 	"os"
+	"strings"
 )
 
 import (
@@ -139,11 +140,17 @@ func HostRuleConfLoad(filename string) (HostConf, error) {
 	// convert HostTagToHost to Host2HostTag
 	host2HostTag := make(Host2HostTag)
 
+	// host names are matched case-insensitively and without a trailing dot (see bfe_route):
+	// names that are equal after this normalization are duplicates
+	normalizedHosts := make(map[string]bool)
+
 	for hostTag, hostnameList := range *config.Hosts {
 		for _, hostName := range *hostnameList {
-			if host2HostTag[hostName] != "" {
+			normalized := strings.TrimSuffix(strings.ToLower(hostName), ".")
+			if normalizedHosts[normalized] {
 				return conf, fmt.Errorf("host duplicate for %s", hostName)
 			}
+			normalizedHosts[normalized] = true
 			host2HostTag[hostName] = hostTag
 		}
 	}
@@ -153,6 +160,9 @@ func HostRuleConfLoad(filename string) (HostConf, error) {
 
 	for product, hostTagList := range *config.HostTags {
 		for _, hostTag := range *hostTagList {
+			if _, ok := hostTag2Product[hostTag]; ok {
+				return conf, fmt.Errorf("hostTag duplicate for %s", hostTag)
+			}
 			hostTag2Product[hostTag] = product
 		}
 	}
